@@ -574,10 +574,26 @@ func pickValue(r *vh.RNG) *big.Int {
 
 const txGas = 700000
 
+// senders can afford any generated gas price (up to 2^128 per gas) and value
+var senderFunds = new(big.Int).Lsh(big.NewInt(1), 200)
+
+// gas prices: small ones, and prices at the arithmetic-width boundaries: txGas*price, used*price and
+// remaining*price land around 2^64 and 2^128 with a price that does / does not fit 64 bits
+func pickPrice(r *vh.RNG) *big.Int {
+	if r.Intn(4) != 0 {
+		return big.NewInt(int64(r.Intn(3)))
+	}
+	two := func(n uint) *big.Int { return new(big.Int).Lsh(big.NewInt(1), n) }
+	T := []*big.Int{two(64), two(64), two(128)}[r.Intn(3)]
+	f := []uint64{txGas, 21000, 53000, txGas - 21000, 100000}[r.Intn(5)]
+	ps := []*big.Int{Add(new(big.Int).Div(T, U(f)), big.NewInt(int64(r.Intn(3))-1)), two(45), two(49), two(63), Sub(two(64), big.NewInt(1)), two(64), Add(two(64), big.NewInt(1))}
+	return ps[r.Intn(len(ps))]
+}
+
 func buildTx(k txKind, e *txEnv, r *vh.RNG, nonce uint64, signer types.Signer, second bool) *types.Transaction {
 	to, data := k.mk(e, r)
 	value := pickValue(r)
-	price := big.NewInt(int64(r.Intn(3)))
+	price := pickPrice(r)
 	var tx *types.Transaction
 	if to == nil {
 		tx = types.NewContractCreation(nonce, value, txGas, price, data)
@@ -684,7 +700,7 @@ func genBlock(c *vh.Ctx) *blockCase {
 	num := new(big.Int).SetUint64(b.cc.num)
 	signer := types.MakeSigner(b.cc.cfg.C, num)
 	const nonceA = 3
-	b.world = []Acct{{Addr: addrA, Bal: Big("10000000000000000000"), Nonce: nonceA}, {Addr: addrB, Bal: Big("10000000000000000000")},
+	b.world = []Acct{{Addr: addrA, Bal: senderFunds, Nonce: nonceA}, {Addr: addrB, Bal: senderFunds},
 		{Addr: sink, Bal: big.NewInt(1000)}, {Addr: uExist, Bal: big.NewInt(77)}}
 	for _, p := range progs() {
 		b.world = append(b.world, Acct{Addr: p.addr, Bal: big.NewInt(p.bal), Code: p.code, Storage: p.st})
@@ -1079,8 +1095,8 @@ func runChain(c *vh.Ctx, idx int) {
 	const nblocks = 8
 	db := aquadb.NewMemDatabase()
 	alloc := core.GenesisAlloc{
-		addrA:  {Balance: Big("10000000000000000000")},
-		addrB:  {Balance: Big("10000000000000000000")},
+		addrA:  {Balance: senderFunds},
+		addrB:  {Balance: senderFunds},
 		sink:   {Balance: big.NewInt(1000)},
 		uExist: {Balance: big.NewInt(77)},
 	}
@@ -1251,7 +1267,7 @@ func main() {
 	m := c.StartModel()
 	defer m.Close()
 	c.Res.Rule = "(1) reward cases: header number over {1,2,100, fork heights +-1 (3,4,5,21799..21801,36049,36050), 41999998..42000001, 50000000, random below/above 42,000,000} x 10 configurations x miner {existing, contract, fresh, zero address} x 0-3 uncles at depth 1..8 whose miners are {the block's miner, the other uncle's miner, an existing account, a fresh account} over a 3-5 account pre-state with balances from 0 to 2^200, run through the accumulateRewards hook and through Engine.Finalize; " +
-		"(2) blocks of 0-5 transactions from two senders (gas price 0..2, value 0..1e15) chosen among 23 kinds (transfers to existing/fresh/coinbase/listed-HF4 addresses, creations with value ok/INVALID/init self-destructs, nested CALLs with value whose inner or middle frame fails or reverts, inner CREATE with value failing/succeeding, SELFDESTRUCT to self/fresh/existing/with and without balance/callee is the coinbase/inside a frame that then fails/then paid again, contracts paying the sender or the coinbase, SSTORE clearing) with 0-2 uncles at depth 1..8, miner {fresh, sender, self-destructing contract, existing, listed-HF4 address}, at 26 (configuration,height) points on both sides of HF4/HF5/EIP158/Byzantium/42,000,000 about 40% of them exactly at an HF4 height with 1-3 listed addresses funded, run through StateProcessor.Process; " +
+		"(2) blocks of 0-5 transactions from two senders (gas price 0..2 or at the arithmetic-width boundaries where gas*price crosses 2^64 or 2^128 with a price that does or does not fit 64 bits; value 0..1e15) chosen among the transaction kinds incl. multi-call drivers that destruct, re-fund and destruct the same contract repeatedly, destruct then CREATE from the destructed contract, chain beneficiaries that destruct later, destruct inside reverted and kept frames, the same scenario in consecutive transactions (transfers to existing/fresh/coinbase/listed-HF4 addresses, creations with value ok/INVALID/init self-destructs, nested CALLs with value whose inner or middle frame fails or reverts, inner CREATE with value failing/succeeding, SELFDESTRUCT to self/fresh/existing/with and without balance/callee is the coinbase/inside a frame that then fails/then paid again, contracts paying the sender or the coinbase, SSTORE clearing) with 0-2 uncles at depth 1..8, miner {fresh, sender, self-destructing contract, existing, listed-HF4 address}, at 26 (configuration,height) points on both sides of HF4/HF5/EIP158/Byzantium/42,000,000 about 40% of them exactly at an HF4 height with 1-3 listed addresses funded, run through StateProcessor.Process; " +
 		"(3) 8-block chains from core.GenerateChain over a committed genesis (TestChainConfig: HF4 at 4, HF5 at 5) holding the same contracts and two funded listed addresses, 0-4 transactions and 0-2 uncles per block. A case is distinct by (configuration/height, transaction kinds, uncle depths, miner relation)."
 	c.Assume("transactions are signed with valid keys (signature recovery is C12); every generated transaction is valid for its block (invalid ones are C06)")
 	c.Assume("uncle depth <= 8 and uncle height >= 0: deeper uncles (negative uncle reward) are rejected by VerifyUncles, which is property C13")
